@@ -3,7 +3,7 @@
 (lending_move, borrowing_move, chip_transfer, set_fire, is_effective, get_degree; add_edge, get_valence, is_loopless;
 CFiringScript.get_firings / set_firings / update_firings; CFConfig.get_out_degree_S, the wrappers set_fire / lending_move / borrowing_move and the readers
 get_degree_at / get_q_underlying_degree / get_degree_sum / is_non_negative;
-CFOrientation.set_orientation / check_fullness / get_in_degree / get_out_degree) to Gallina.
+CFOrientation.set_orientation / check_fullness / get_in_degree / get_out_degree / get_orientation / is_source / is_sink) to Gallina.
 Writes coq/theories/TranslatedImpCFDivisor.v and TranslatedImpCFGraph.v (one file per class, so that a method that leaves the subset only
 affects the property that speaks about its class) from /repo's CURRENT source on every run; Link/ImpLink.v proves that each translated method, run on a
 dictionary state that represents a model state, raises exactly when the model refuses and otherwise ends in a state representing the model's
@@ -23,7 +23,8 @@ Subset (anything else raises Unsupported and the run fails closed): see the meth
 calls of already translated methods on self (and on self.divisor from a CFConfig; a read-only method that may raise can be called inside an
 expression and is hoisted like a dictionary read), validation-only loops, the early-exit loop `for ..: if c: return CONST`, and loops
 that `return` from anywhere inside (the accumulator then carries `(option result, state)` and later iterations are skipped); `<` on vertices is the
-order of their names = of their numbers; a method with a result that also writes fields returns `(result, fields)`. An `if` whose branches only update state and which
+order of their names = of their numbers; a method with a result that also writes fields returns `(result, fields)`; a method annotated
+Optional[bool] / Optional[Tuple[str, str]] returns an option (`return None` = None, any other return = Some). An `if` whose branches only update state and which
 is followed by more statements is translated as `match (if c then A else B) with ...` so that the continuation appears once."""
 import ast, sys, os
 REPO = os.environ.get("CF_REPO", "/repo")
@@ -54,12 +55,13 @@ TARGETS = [
     ("chipfiring/CFConfig.py", "CFConfig", "get_out_degree_S"),
     ("chipfiring/CFOrientation.py", "CFOrientation", "set_orientation"), ("chipfiring/CFOrientation.py", "CFOrientation", "check_fullness"),
     ("chipfiring/CFOrientation.py", "CFOrientation", "get_in_degree"), ("chipfiring/CFOrientation.py", "CFOrientation", "get_out_degree"),
+    ("chipfiring/CFOrientation.py", "CFOrientation", "get_orientation"), ("chipfiring/CFOrientation.py", "CFOrientation", "is_source"), ("chipfiring/CFOrientation.py", "CFOrientation", "is_sink"),
     ("chipfiring/CFConfig.py", "CFConfigMoves", "get_degree_at"), ("chipfiring/CFConfig.py", "CFConfigMoves", "is_non_negative"), ("chipfiring/CFConfig.py", "CFConfigMoves", "get_degree_sum"), ("chipfiring/CFConfig.py", "CFConfigMoves", "get_q_underlying_degree"),
     ("chipfiring/CFConfig.py", "CFConfigMoves", "set_fire"), ("chipfiring/CFConfig.py", "CFConfigMoves", "lending_move"), ("chipfiring/CFConfig.py", "CFConfigMoves", "borrowing_move"),
 ]
 class Unsupported(Exception): pass
 def bad(node, why=""): raise Unsupported("%s at line %s: %s" % (type(node).__name__, getattr(node, "lineno", "?"), why))
-COQTY = {"key": "nat", "Z": "Z", "bool": "bool", "dictZ": "dictZ", "dictD": "dictD", "set": "list nat", "edges": "list (nat * nat * Z)"}
+COQTY = {"optbool": "(option bool)", "optpair": "(option (nat * nat))", "key": "nat", "Z": "Z", "bool": "bool", "dictZ": "dictZ", "dictD": "dictD", "set": "list nat", "edges": "list (nat * nat * Z)"}
 def ann_type(a):
     s = ast.unparse(a)
     if s == "int": return "Z"
@@ -265,7 +267,18 @@ class Fn:
         if isinstance(s, ast.Raise): self.can_raise = True; return "EXN_"
         if isinstance(s, ast.Return):
             if s.value is None: bad(s, "bare return")
-            t, ty = self.expr(s.value)
+            if self.opt_ret:
+                # a method annotated Optional[bool] / Optional[Tuple[str, str]]: `return None` is None, any other return is Some of a bool / of a pair of names
+                if isinstance(s.value, ast.Constant) and s.value.value is None: t, ty = "None", self.opt_ret
+                elif self.opt_ret == "optpair" and isinstance(s.value, ast.Tuple) and len(s.value.elts) == 2:
+                    (a_, ta_), (b_, tb_) = self.expr(s.value.elts[0]), self.expr(s.value.elts[1])
+                    if ta_ != "key" or tb_ != "key": bad(s, "pair of non-names")
+                    t, ty = "Some (%s, %s)" % (a_, b_), "optpair"
+                else:
+                    t, ty = self.expr(s.value)
+                    if self.opt_ret != "optbool" or ty != "bool": bad(s, "return of %s in an Optional method" % ty)
+                    t, ty = "Some %s" % t, "optbool"
+            else: t, ty = self.expr(s.value)
             if self.rty not in (None, ty): bad(s, "returns of different types")
             self.rty = ty
             if getattr(self, "loop_ret", []): return self.wrap("PyOk (Some (%s), %s)" % (t, self.loop_ret[-1]))     # inside a loop: leave it with the value and the current state
@@ -449,6 +462,8 @@ class Fn:
         bad(s, "store")
     def translate(self):
         n = self.node
+        r_ = ast.unparse(n.returns) if n.returns is not None else ""
+        self.opt_ret = {"typing.Optional[bool]": "optbool", "Optional[bool]": "optbool", "typing.Optional[typing.Tuple[str, str]]": "optpair", "Optional[Tuple[str, str]]": "optpair"}.get(r_)
         if n.args.vararg or n.args.kwarg or n.args.kwonlyargs or n.decorator_list: bad(n, "signature")
         for a in n.args.args:
             if a.arg == "self": continue
